@@ -168,6 +168,7 @@ fn eval_c05(case: &Case, acc: &Acc) -> Vec<Violation> {
     if r.is_err() && n_fail == 0 && !ref_ok {
         out.push(vio("rejection_names_no_nonterminal", format!("{}: rejected but decidable succeeds for every non-terminal", case.gram.short()), case, json!({})));
     }
+    acc.fallback(|| json!({"grammar": case.gram.short(), "K": case.k, "raw": case.raw}));
     if acc.want_sample() && mk.iter().flatten().any(|k| *k >= 2) {
         acc.sample(json!({"grammar": case.gram.short(), "K": case.k, "raw": case.raw, "reference_minimal_k": mk, "parol_ok": r.is_ok()}));
     }
@@ -365,6 +366,7 @@ fn eval_c06(case: &C06Case, acc: &Acc) -> Vec<Violation> {
     if nontrivial {
         acc.distinct(&(case.gram.clone(), case.raw));
     }
+    acc.fallback(|| json!({"grammar": case.gram.short(), "raw": case.raw}));
     if acc.want_sample() && nontrivial && rb.nts.len() >= 2 {
         acc.sample(json!({"grammar": case.gram.short(), "raw": case.raw, "cache_states": states, "request_sequences": transitions,
             "FIRST_2": rs.first[case.kb.min(2)].nts.iter().map(fmt_set).collect::<Vec<_>>(),
